@@ -167,6 +167,23 @@ func factsFrontend() {
 		}
 	}
 	emitList("extentMergeConds", "internal/cortex/querier/queryrange/results_cache.go handleHit: statements of the extent merge loop that mention accumulator.End", loop)
+	emitList("filterRecentBody", "internal/cortex/querier/queryrange/results_cache.go resultsCache.filterRecentExtents", feBody(fn(rc, "resultsCache", "filterRecentExtents")))
+	var doLines []string
+	for _, l := range feBody(fn(rc, "resultsCache", "Do")) {
+		if strings.Contains(l, "maxCacheTime") || strings.Contains(l, "writeBack") || strings.Contains(l, "filterRecentExtents") || strings.Contains(l, "s.put(") {
+			doLines = append(doLines, l)
+		}
+	}
+	emitList("doFreshnessLines", "internal/cortex/querier/queryrange/results_cache.go resultsCache.Do: statements about maxCacheTime, writeBack, filterRecentExtents, put", doLines)
+	var scLines []string
+	for _, name := range []string{"handleMiss", "handleHit"} {
+		for _, l := range feBody(fn(rc, "resultsCache", name)) {
+			if strings.Contains(l, "shouldCacheResponse") {
+				scLines = append(scLines, name+": "+l)
+			}
+		}
+	}
+	emitList("shouldCacheResponseUses", "internal/cortex/querier/queryrange/results_cache.go: where handleMiss / handleHit consult shouldCacheResponse", scLines)
 	rt := parse("pkg/queryfrontend/roundtrip.go")
 	emitList("rangeMiddlewareOrder", "pkg/queryfrontend/roundtrip.go newQueryRangeTripperware: order in which the middlewares are appended",
 		feOrder(fn(rt, "", "newQueryRangeTripperware"), "NewLimitsMiddleware", "StepAlignMiddleware", "DownsampledMiddleware", "SplitByIntervalMiddleware", "PromQLShardingMiddleware", "NewResultsCacheMiddleware", "NewRetryMiddleware"))
